@@ -9,6 +9,7 @@ mod c11;
 mod c13;
 mod c18;
 mod c19;
+mod c20;
 mod enc;
 mod natives;
 mod runner;
@@ -217,6 +218,7 @@ fn real_main() {
         "c13" => c13::cmd(),
         "c18" => c18::cmd(),
         "c19" => c19::cmd(),
+        "c20" => c20::cmd(),
         _ => {
             eprintln!("usage: sut <run|...>");
             std::process::exit(2);
